@@ -632,4 +632,24 @@ def Action.fresh : Action → Bool
 
 def listFresh (as : List Action) : Prop := ∀ a ∈ as, a.fresh = true
 
+/-! ### ownership is by uid: "the Usage and its user exist throughout a reconcile" -/
+
+/-- `P` holds in the state before every action of the schedule and in the state after the last -/
+def Along (P : Sys → Prop) : Sys → List Action → Prop
+  | sys, [] => P sys
+  | sys, a :: as => P sys ∧ Along P (sys.exec a).1 as
+
+instance Along.dec (P : Sys → Prop) [DecidablePred P] : (sys : Sys) → (as : List Action) → Decidable (Along P sys as)
+  | sys, [] => inferInstanceAs (Decidable (P sys))
+  | sys, a :: as => @instDecidableAnd _ _ _ (Along.dec P (sys.exec a).1 as)
+
+/-- the Usage `n` is stored as the object with uid `V`, names `b` (a resolved reference) as its
+user, and the resource `b` refers to is stored as the object with uid `U` -/
+def Held (n : String) (V : Nat) (b : RSpec) (U : Nat) (sys : Sys) : Prop :=
+  (∃ y ∈ sys.store.usages, y.name = n ∧ y.uid = V ∧ y.by_ = some b) ∧
+  (sys.store.getR (groupOf b.av) b.kind b.name).map (·.uid) = some U
+
+instance (n : String) (V : Nat) (b : RSpec) (U : Nat) : DecidablePred (Held n V b U) :=
+  fun sys => by unfold Held; exact inferInstance
+
 end Xp.C19
